@@ -46,33 +46,46 @@ def len_tests(fn):
     return out
 
 
+def _full_edge(t, strict):
+    """edge on which `len (>=|>) limit` holds for a test on len written either way round (`len >= limit` / `len < limit`, resp.
+    `len > limit` / `len <= limit`); None if the test is another comparison"""
+    pos, negd = ("Gt", "Le") if strict else ("Ge", "Lt")
+    if t["op"] == pos:
+        return t["true_edge"], t["false_edge"]
+    if t["op"] == negd:
+        return t["false_edge"], t["true_edge"]
+    return None, None
+
+
 def shape_newest(run, f, key, pushes, rejects):
-    lt = [t for t in len_tests(f) if t["op"] == "Ge"]
+    lt = [t for t in len_tests(f) if _full_edge(t, False)[0]]
     run.check(len(lt) >= 1, key + "|newest-test", "newest mode compares `len >= limit`", "newest-mode comparison is not `len >= limit` (found ops %s)" % [t["op"] for t in len_tests(f)], f.where())
     if not lt:
         return
     t = lt[0]
-    rj = [c for c in rejects if t["true_edge"] and f.edge_dominates(t["true_edge"], c.site)]
+    full, _notfull = _full_edge(t, False)
+    rj = [c for c in rejects if full and f.edge_dominates(full, c.site)]
     run.check(len(rj) >= 1, key + "|newest-reject-on-full", "the incoming job is rejected on the full edge", "no reject on the full edge", f.where())
     # no push is dominated by the full edge
-    bad = [c for c in pushes if t["true_edge"] and f.edge_dominates(t["true_edge"], c.site)]
+    bad = [c for c in pushes if full and f.edge_dominates(full, c.site)]
     run.check(not bad, key + "|newest-no-push-when-full", "no push_back lies on the `len >= limit` edge (when discardable)", "a push is reachable on the full edge: the queue can exceed the limit", f.where())
 
 
 def shape_oldest(run, f, key, pushes, shed_rx):
-    lt = [t for t in len_tests(f) if t["op"] == "Gt"]
+    lt = [t for t in len_tests(f) if _full_edge(t, True)[0]]
     run.check(len(lt) >= 1, key + "|oldest-test", "oldest mode compares `len > limit`", "oldest-mode comparison is not `len > limit`", f.where())
     if not lt:
         return
     t = lt[0]
+    over, within = _full_edge(t, True)
     run.check(f.in_cycle(t["site"]), key + "|oldest-is-a-loop", "the `len > limit` test is a loop condition (sheds until the bound holds again, also after the limit was lowered)",
               "the `len > limit` test is not in a cycle: one job in, one job out -- after the limit is lowered the queue stays above it", f.where(t.get("line")))
-    sh = [c for c in f.calls() if re.search(shed_rx, c.callee or "") and t["true_edge"] and f.edge_dominates(t["true_edge"], c.site) and f.in_cycle(c.site)]
+    sh = [c for c in f.calls() if re.search(shed_rx, c.callee or "") and over and f.edge_dominates(over, c.site) and f.in_cycle(c.site)]
     run.check(len(sh) >= 1, key + "|oldest-sheds-in-loop", "each iteration removes one job (%s)" % (sh[0].name.split("::")[-1] if sh else "?"), "the loop body does not remove a job", f.where())
     ps = [c for c in pushes if f.reaches_after(c.site, t["site"]) and not f.in_cycle(c.site)]
     run.check(len(ps) >= 1, key + "|oldest-push-then-trim", "the push precedes the trimming loop", "no push before the trimming loop", f.where())
     # loop exit only through the false edge
-    run.check(t["false_edge"] is not None, key + "|oldest-exit", "the loop exits when len <= limit", None, f.where())
+    run.check(within is not None, key + "|oldest-exit", "the loop exits when len <= limit", None, f.where())
 
 
 def r1(run, db):
